@@ -30,9 +30,10 @@ def _one(args):
     slow = tuple(args[5]) if len(args) > 5 and args[5] else None
     mode = args[6] if len(args) > 6 else "serial"
     lose_idle = args[7] if len(args) > 7 else 0
+    instant = list(args[8]) if len(args) > 8 and args[8] else []
     return serial_rec.run_direct([bytes(s) for s in stmts], [bytes(a) for a in acks],
                                  status={int(k): [bytes(x) for x in v] for k, v in status.items()}, late_hs=late, lose_at=lose,
-                                 slow=slow, mode=mode, lose_idle_after=lose_idle)
+                                 slow=slow, mode=mode, lose_idle_after=lose_idle, instant=instant)
 
 
 def run_all(specs, par=12):
@@ -44,12 +45,13 @@ def enc(spec):
     return {"stmts": [list(s) for s in stmts], "acks": [list(a) for a in acks],
             "status": {str(k): [list(x) for x in v] for k, v in status.items()}, "late": late,
             "lose": spec[4] if len(spec) > 4 else 0, "slow": list(spec[5]) if len(spec) > 5 and spec[5] else None,
-            "mode": spec[6] if len(spec) > 6 else "serial", "lose_idle": spec[7] if len(spec) > 7 else 0}
+            "mode": spec[6] if len(spec) > 6 else "serial", "lose_idle": spec[7] if len(spec) > 7 else 0,
+            "instant": list(spec[8]) if len(spec) > 8 and spec[8] else []}
 
 
 def dec(d):
     return ([bytes(s) for s in d["stmts"]], [bytes(a) for a in d["acks"]],
-            {int(k): [bytes(x) for x in v] for k, v in d["status"].items()}, d["late"], d.get("lose", 0), d.get("slow"), d.get("mode", "serial"), d.get("lose_idle", 0))
+            {int(k): [bytes(x) for x in v] for k, v in d["status"].items()}, d["late"], d.get("lose", 0), d.get("slow"), d.get("mode", "serial"), d.get("lose_idle", 0), d.get("instant", []))
 
 
 def project(trace, spec):
@@ -226,8 +228,11 @@ class P(flow.Plan):
             idle = rng.randint(1, k - 1) if i % 10 == 7 and k >= 2 and not lose and not slow else 0
             if idle:
                 acks = [b"ok\n"] * k
-            specs.append((stmts, acks, status, rng.random() < 0.15 and not lose and not slow and not idle,
-                          lose if mode == "serial" else 0, slow, mode, idle))
+            # zero latency: status lines and acknowledgement of the chosen statements are handled by the reader thread before
+            # the sender's write() returns
+            inst = sorted(rng.sample(range(1, k + 1), rng.randint(1, k))) if i % 6 == 5 and not lose and not slow and not idle else []
+            specs.append((stmts, acks, status, rng.random() < 0.15 and not lose and not slow and not idle and not inst,
+                          lose if mode == "serial" else 0, slow, mode, idle, inst))
         traces = run_all(specs)
         for t in traces:
             t["meta"]["driver"] = "random"
